@@ -264,7 +264,7 @@ func (g *vfGen) genC09() {
 			continue
 		}
 		for k := 0; k < 1+g.intn(3); k++ {
-			structural := []byte("{}[]\",: 1e-.tfn\\")
+			structural := []byte("{}[]\",: 1e-.tfn\\\xc3\xe2\xf0\xa0\x85\x0c\x0b")
 			switch g.intn(4) {
 			case 0:
 				j := g.intn(len(d))
@@ -292,6 +292,30 @@ func (g *vfGen) genC09() {
 	}
 	for _, w := range []string{"[{]", `{"a":[}`, "[", "{", " [", "[[", `{"a":`, `[1,]`, `[01]`, `[1.e5]`, `[,]`, `{,}`, `[1 2]`, `{"a" 1}`} {
 		g.emit(vfOp("jany", []byte(w)))
+	}
+	// a second small alphabet: bytes >= 0x80 (UTF-8 lead and continuation bytes, NEL, NBSP pieces) and the blanks
+	// that Unicode-aware trimming would remove, around quotes and brackets
+	alpha2 := []byte{'[', ']', '"', ',', '1', ' ', 0xC3, 0xE2, 0xF0, 0xA0, 0x85, 0x0C, 0xC2}
+	maxLen2 := g.pick(4, 5)
+	var rec2 func(cur []byte)
+	rec2 = func(cur []byte) {
+		g.emit(vfOp("jany", cur))
+		if len(cur) == maxLen2 {
+			return
+		}
+		for _, a := range alpha2 {
+			rec2(append(append([]byte{}, cur...), a))
+		}
+	}
+	rec2([]byte{'['})
+	for _, w := range []string{"[\"\xc3\"]\"]", "[\"\xf0\",]\"]", "{\"k\":\"caf\xc3\", \"}", "{\"a\":\"\xe2\"}{\"}", "[1]\x0c", "\xc2\xa0[1,2]", "{\"a\":1}\xe2\x80\xa8",
+		"[1] \x0c", "[1,2 \x0c", "\x0c[1]", "[1]\xc2\x85", "[\"\xe9\"]", "[\"\xc3\xa9\"]", "[\"\xf0\x9f\x98\x80\"]"} {
+		b := []byte(w)
+		g.emit(vfOp("jany", b))
+		for l := 1; l <= len(b)+1; l++ {
+			g.emit(vfOp("walk", b, l))
+		}
+		g.emit(vfOp("walk", b, 0))
 	}
 }
 
